@@ -217,7 +217,7 @@ def judge(ctx, ast, sp, T, vi, v):
     if not ok or not eq_mod_excluded(ast, x, x2):
         ov = union_overlap(pane, ast, x)
         kw_tuple = tuple_out_with_kwonly(ast)
-        tr = 'pane.types.Range' if e1.leaves_of(ast) & {'range_int', 'range_float'} else None
+        tr = 'pane.types.Range' if e1.leaves_of(ast) & {'range_int', 'range_float', 'vol_range'} else None
         sig = {'kind': 'roundtrip_differs', 'union_overlap': bool(ov), 'tuple_out_kw_only': kw_tuple, 'type_root': tr}
         if not (ov or kw_tuple or tr):
             sig.update(root=root, leaves=sorted(e1.leaves_of(ast))[:3])
